@@ -663,3 +663,62 @@ def many_construct_scenarios():
                                      "steps": [[{"op": "load", "e": 1, "script": "P", "ow": True}],
                                                [{"op": "solve", "e": 1, "r": 1, "goal": C("check", V(0)), "qnv": 1, "k": 0}]]})
     return scns
+
+
+def twin_scenarios():
+    """ground terms that differ but PRINT alike when quotes are dropped - a quoted atom whose text spells the
+    arguments (or the whole) of a compound term, a list, or a variable's generated name - in one clause, one
+    predicate, one program, in both orders"""
+    X, Y, R = V(0), V(1), V(2)
+    a, b = A("a"), A("b")
+    pairs = [(C("pair", A("a,b")), C("pair", a, b)), (A("point(1,2)"), C("point", I(1), I(2))), (lst([A("x,y")]), lst([A("x"), A("y")])),
+             (C("g", A("f(a)")), C("g", C("f", a))), (C("t", A("a,b"), a), C("t", a, A("b,a"))), (A("[a,b]"), lst([a, b])), (C("k", A("X0_")), C("k", A("X0"))),
+             (C("w", A("a"), lst([A("b,c")])), C("w", A("a"), lst([A("b"), A("c")])))]
+    scns = []
+    for i, (t1, t2) in enumerate(pairs):
+        for first, second in ((t1, t2), (t2, t1)):
+            script = {"edge/1": [clause(C("edge", first))], "label/1": [clause(C("label", second))],
+                      "same/1": [clause(C("same", X), and_(call(C("edge", X)), call(C("label", X))))],
+                      "either/1": [clause(C("either", X), or_(call(C("=", X, first)), call(C("=", X, second))))],
+                      "both/2": [clause(C("both", X, Y), conj_(call(C("=", X, first)), call(C("=", Y, second)), call(C("\\=", X, Y))))],
+                      "p/2": [clause(C("p", first, A("one"))), clause(C("p", second, A("two")))],
+                      "pk/1": [clause(C("pk", R), or_(call(C("p", first, R)), call(C("p", second, R))))],
+                      "ite/1": [clause(C("ite", R), or_(then(call(C("label", first)), call(C("=", R, A("wrong")))), then(call(C("label", second)), call(C("=", R, A("right"))))))],
+                      "lists/1": [clause(C("lists", X), call(C("=", X, lst([first, second, first]))))]}
+            steps = [[{"op": "load", "e": 1, "script": "P", "ow": True}]]
+            for j, (g, qnv) in enumerate([(C("same", V(0)), 1), (C("either", V(0)), 1), (C("both", V(0), V(1)), 2), (C("p", V(0), V(1)), 2), (C("pk", V(0)), 1),
+                                          (C("ite", V(0)), 1), (C("lists", V(0)), 1), (C("label", first), 0), (C("edge", second), 0)]):
+                steps.append([{"op": "solve", "e": 1, "r": j + 1, "goal": g, "qnv": qnv, "k": 0}])
+            scns.append({"scripts": {"P": script}, "steps": steps, "keys": [], "py": True})
+    return scns
+
+
+SPECIAL_NAMES = ["__aux", "__init__", "_p", "not", "nat_1", "nat_n", "call_1", "p_0", "x1", "doBreak", "l1", "arg1"]
+
+
+def special_name_scenarios():
+    """predicates whose names look like something else: two leading underscores, the key a native or a compiled
+    predicate gets in the engine (`nat_1` next to a native nat/1), words of other Prologs that are ordinary names
+    here (`not`), names the generated code uses for its own variables"""
+    X, Y = V(0), V(1)
+    rows = [{"args": [A("native")], "nv": 0}]
+    scns = []
+    for n in SPECIAL_NAMES:
+        script = {n + "/1": [clause(C(n, A("first"))), clause(C(n, A("second")))],
+                  "use/1": [clause(C("use", X), call(C(n, X)))],
+                  "cond/1": [clause(C("cond", X), or_(then(call(C(n, A("second"))), call(C("=", X, A("then")))), call(C("=", X, A("else")))))],
+                  "neg/1": [clause(C("neg", X), and_(not_(call(C(n, A("third")))), call(C("=", X, A("absent")))))],
+                  "via/1": [clause(C("via", X), conj_(call(C("=", Y, C(n, X))), call(C("call", Y))))]}
+        more = {n + "/1": [clause(C(n, A("third")))], n + "/2": [clause(C(n, A("two"), A("args")))]}
+        steps = [[{"op": "register", "e": 1, "name": "nat", "arity": 1, "style": "inferred", "fid": "nat", "rows": rows, "raise": {"call": 0, "row": 0}, "yields": False}],
+                 [{"op": "load", "e": 1, "script": "P", "ow": True}]]
+        r = 0
+        for g, qnv in [(C(n, V(0)), 1), (C("use", V(0)), 1), (C("cond", V(0)), 1), (C("neg", V(0)), 1), (C("via", V(0)), 1), (C("nat", V(0)), 1)]:
+            r += 1
+            steps.append([{"op": "solve", "e": 1, "r": r, "goal": g, "qnv": qnv, "k": 0}])
+        steps.append([{"op": "load", "e": 1, "script": "M", "ow": False}, {"op": "load", "e": 1, "script": "M", "ow": True}])
+        for g, qnv in [(C(n, V(0)), 1), (C(n, V(0), V(1)), 2), (C("use", V(0)), 1), (C("neg", V(0)), 1), (C("nat", V(0)), 1)]:
+            r += 1
+            steps.append([{"op": "solve", "e": 1, "r": r, "goal": g, "qnv": qnv, "k": 0}])
+        scns.append({"scripts": {"P": script, "M": more}, "steps": steps, "keys": []})
+    return scns
